@@ -348,7 +348,20 @@ impl Admin {
                     let i0 = ix::init_bank_metadata(bk, p);
                     let _ = w.exec(m, &[i0], &[]).await;
                 }
-                let i = ix::write_bank_metadata(gk, bk, s.pubkey(), opt!(r, 0.7, b"TICK".to_vec()), opt!(r, 0.7, vec![b'x'; r.gen_range(0..40)]));
+                let mut s = s;
+                let mut gk_used = gk;
+                if r.gen_bool(0.25) {
+                    // the metadata admin of another group names its own group next to this group's
+                    // bank and that bank's metadata account
+                    if w.groups.len() < 2 {
+                        w.add_group().await;
+                    }
+                    let og = (self.g + 1) % w.groups.len();
+                    s = clone_kp(&w.groups[og].metadata);
+                    gk_used = w.groups[og].key;
+                    m.r.count("admin.bank_metadata_write_by_foreign_group_metadata_admin");
+                }
+                let i = ix::write_bank_metadata(gk_used, bk, s.pubkey(), opt!(r, 0.7, b"TICK".to_vec()), opt!(r, 0.7, vec![b'x'; r.gen_range(0..40)]));
                 w.exec(m, &[i], &[&s]).await
             }
             83..=88 => {
@@ -559,6 +572,17 @@ impl Admin {
             ixs.insert(end, ix::withdraw_emissions(gk, w.accts[le].key, rk.pubkey(), w.banks[lev.ca].key, bank.emissions_mint, dst, w.mints[em].program()));
             let o = w.exec(m, &ixs, &[&rk]).await;
             m.r.count(if o.ok() { "admin.emissions_in_receivership_accepted" } else { "admin.emissions_in_receivership_refused" });
+            // the account's owner co-signs and claims its own rewards inside the receiver's bracket
+            // (to its own token account): still not a withdraw or repay - the bracket admits nothing else
+            {
+                let owner = w.auth_of(le);
+                let own_dst = w.users[w.accts[le].user].tas[em];
+                let mut ixs = receivership_ixs(w, le, &rk, None, None, !w.shadow.contains_key(&ix::liq_record_key(&w.accts[le].key)), &tas);
+                let end = ixs.len() - 1;
+                ixs.insert(end, ix::withdraw_emissions(gk, w.accts[le].key, owner.pubkey(), w.banks[lev.ca].key, bank.emissions_mint, own_dst, w.mints[em].program()));
+                let o = if owner.pubkey() == rk.pubkey() { w.exec(m, &ixs, &[&rk]).await } else { w.exec(m, &ixs, &[&rk, &owner]).await };
+                m.r.count(if o.ok() { "admin.owner_claims_rewards_inside_receivership_accepted" } else { "admin.owner_claims_rewards_inside_receivership_refused" });
+            }
             // the same, settling first (permissionless) so that the rewards are on the books
             let mut ixs = receivership_ixs(w, le, &rk, None, None, !w.shadow.contains_key(&ix::liq_record_key(&w.accts[le].key)), &tas);
             let end = ixs.len() - 1;
